@@ -23,7 +23,7 @@ PROPS = {
     "C20": dict(
         group="search", level="exploration", rule=SCHED_RULE,
         harnesses=[dict(name="C20", quick=48000, thorough=1500000, quick_deadline_s=150, thorough_deadline_s=1500)],
-        expect_probes=["yield-to-batch-failed", "cancel-while-queued", "moved-to-batch"],
+        expect_probes=["yield-to-batch-failed", "cancel-while-queued", "moved-to-batch", "yield-retried-after-failure"],
         components=S_COMPONENTS, assumptions=COMMON_ASSUME,
         technique="deterministic simulation: seeded schedule + fake-clock exploration of the real multiScheduler with a per-step slot-accounting invariant against a client-phase model",
         level_text="Seeded exploration of interleavings of acquire / yield-after-time-slice / cancel / deadline / release for 2-8 searches on the real multiScheduler and an instrumented copy of x/sync/semaphore, capacities 1-4, all batch divisors, time slices 1ms-5s; after every scheduler step the semaphores' occupancy is checked against the interval implied by each client's phase (no slot unaccounted, none double-released, capacity never exceeded), errors only with a done context, and at the end no slot is leaked (capacity fresh acquisitions succeed; a leak shows up as deadlock).",
@@ -118,5 +118,16 @@ PROPS = {
         technique="deterministic simulation: generated result histories and injected transport errors through the real gRPC streaming pipeline, conservation checks on the recorded message history",
         level_text="Generated result histories through the real streaming pipeline into a recording transport: delivered files are exactly the produced files in order, once (a prefix when the transport fails, never duplicated); a message with more than one file stays below 1 MiB of encoded file matches and 4 MiB in total; on successful completion every statistics counter summed over delivered messages equals the sum over produced results (never more under faults).",
         level_note="Samples histories and fault points; no concurrency inside this pipeline, so the schedule dimension is trivial here.",
+    ),
+    "C11": dict(
+        group="search", level="exploration",
+        rule="one evaluation = one directory of healthy shards plus 1-2 corrupted copies of other repositories' shards (fault stream: truncation, bit flip, zeroed 4 KiB page, garbage block, scaled/incremented 32-bit field, byte set, swapped halves; positions biased to header, table of contents and the last 4 KiB; optional garbled .meta sidecar), loaded with the real directory searcher and queried 6 times. distinct_nontrivial = distinct (corpus, corruption list) hashes among cases in which at least one query had a non-empty reference over the healthy shards.",
+        harnesses=[dict(name="C11", quick=12000, thorough=600000, quick_deadline_s=150, thorough_deadline_s=1500, crash_is_violation=True, no_det=True, grace_s=420)],
+        expect_faults=["truncate", "bitflip", "zero-page", "garbage-block", "u32-scale", "byte-set", "swap-halves", "meta-sidecar"],
+        components={"real": ["search.NewDirectorySearcher (watcher scan, loader goroutines, loadShard)", "index shard reader on real mmap'ed corrupted files", "shardedSearcher Search/List with its recover"], "stub": ["fsnotify (simfsn, idle here)", "the corruption is applied to stored bytes before the loader sees them; files are not modified after being loaded"]},
+        assumptions=["runs outside the scheduler (real goroutines): corruption handling is not schedule dependent; the fault dimension is the stored-byte fault stream", "workers run under ulimit -v (8 GB): a fatal out-of-memory error is a crash of the serving process", "a case that does not finish within 60 s of real time is a hang"],
+        technique="deterministic fault injection: seeded stored-byte corruption (truncation, bit flips, torn pages, garbage, size-field damage) of shard files and sidecars before the real loader, with process-death and hang detection and self-differential answers for the healthy shards",
+        level_text="Seeded stored-byte faults on shard files next to healthy shards; the real loader/searcher must survive (a worker that dies from an unrecovered panic, fatal OOM under ulimit or a signal is re-run case by case in fresh processes and a reproducible death is the violation, with the crashing zoekt function as its signature), every call must return within the watchdog, and searches/listings must return exactly the reference results for repositories of the healthy shards.",
+        level_note="Samples corruption kinds/positions on 12 small corpora (shards of 1-4 KiB, so a large fraction of positions hits structural bytes).",
     ),
 }
